@@ -91,6 +91,105 @@ def run_history(ctx, h, nops, model_in, expect):
                     'fragments': [w.query(f'q frag {i}') for i in range(len(w.objs))]})
 
 
+
+def loaded_pass(ctx):
+    """"... and for ids after a load": a model saved, loaded in a fresh resource set (XMI or JSON, one or several roots,
+    positional references inside the file), then edited with position-shifting operations; after every edit every object
+    under a root resolves to itself and fragments are pairwise distinct"""
+    import os
+    import shutil
+    import tempfile
+    from . import models
+    from pyecore.resources import ResourceSet, URI
+    from pyecore.resources.json import JsonResource
+    n = 60 if ctx.quick() else 1500
+    tmp = tempfile.mkdtemp(prefix='verif_c11_')
+    try:
+        for h in range(n):
+            rng = common.sub_rng(ctx.seed, 'C11', 'loaded', h)
+            sp = models.gen_mmspec(rng, h)
+            for f in sp.feats:
+                f['id'] = False                       # positional fragments (ids are C08's business)
+            m = models.gen_model(rng, sp, nobj=rng.randint(4, 10), values='safe')
+            fmt = 'xmi' if h % 2 == 0 else 'json'
+            rset = ResourceSet()
+            rset.resource_factory['json'] = lambda uri: JsonResource(uri)
+            path = os.path.join(tmp, f'm.{fmt}')
+            res = rset.create_resource(URI(path))
+            for r in m.roots:
+                res.append(r)
+            try:
+                res.save()
+                rset2 = ResourceSet()
+                rset2.resource_factory['json'] = lambda uri: JsonResource(uri)
+                rset2.metamodel_registry[m.pk.nsURI] = m.pk
+                res2 = rset2.get_resource(URI(path))
+            except Exception:
+                ctx.count('loaded/setup-raised')
+                continue
+            edits = []
+
+            def objs():
+                out = []
+
+                def walk(o):
+                    out.append(o)
+                    for c in o.eContents:
+                        walk(c)
+                for r in res2.contents:
+                    walk(r)
+                return out
+
+            def judge(step):
+                seen = {}
+                for o in objs():
+                    ctx.evaluations += 1
+                    fr = o.eURIFragment()
+                    if fr in seen:
+                        return ('fragment-not-unique', f'two objects share the fragment {fr!r}')
+                    seen[fr] = o
+                    try:
+                        got = res2.resolve(fr)
+                    except Exception as e:
+                        return ('resolve-raised', f'resolve({fr!r}) raised {type(e).__name__}: {str(e)[:80]}')
+                    if got is not o:
+                        return ('resolve-wrong', f'resolve({fr!r}) is another object ({getattr(got, "eURIFragment", lambda: got)()})')
+                return None
+            problem = judge('loaded')
+            for step in range(8):
+                if problem:
+                    break
+                conts = [(o, f) for o in objs() for f in o.eClass.eAllReferences() if f.containment and f.many]
+                conts = [(o, f) for (o, f) in conts if len(o.eGet(f))]
+                k = rng.random()
+                if conts and k < .35:
+                    o, f = rng.choice(conts); o.eGet(f).pop(0); edits.append(f'{o.eClass.name}.{f.name}.pop(0)')
+                elif conts and k < .6:
+                    o, f = rng.choice(conts); c = o.eGet(f); x = c[len(c) - 1]; c.remove(x); c.insert(0, x)
+                    edits.append(f'{o.eClass.name}.{f.name}: last moved to the front')
+                elif conts and k < .8:
+                    o, f = rng.choice(conts)
+                    cls = f.eType if not f.eType.abstract else None
+                    if cls is None:
+                        continue
+                    o.eGet(f).insert(0, cls()); edits.append(f'{o.eClass.name}.{f.name}.insert(0, new)')
+                elif len(res2.contents) > 1 and k < .9:
+                    r0 = res2.contents[0]; res2.remove(r0); res2.append(r0); edits.append('first root moved to the end')
+                else:
+                    continue
+                ctx.count('loaded/' + fmt + '/edit')
+                problem = judge(step)
+            ctx.traces += 1
+            if edits:
+                ctx.nontriv(('loaded', h))
+            if problem:
+                ctx.violate({'clause': problem[0], 'history': 'after-load', 'format': fmt},
+                            f'{problem[0]} after loading a {fmt} document and {edits or "no edit"}: {problem[1]}',
+                            {'case': h, 'loaded': True, 'format': fmt, 'edits': edits})
+    finally:
+        shutil.rmtree(tmp, ignore_errors=True)
+
+
 def run(ctx):
     common.use_repo()
     n = 250 if ctx.quick() else 4000
@@ -114,6 +213,9 @@ def run(ctx):
             bad.add(h)
             ctx.diverge(f'history {h} `{line}` ({kind}): model `{got[:200]}` vs implementation `{want[:200]}`',
                         {'ops': lines, 'line': line})
+    loaded_pass(ctx)
+    ctx.rule += ('; plus models saved (XMI / JSON), loaded in a fresh resource set and then edited with position-shifting '
+                 'operations (pop, move to front, insert, root moved): the same two clauses after every edit')
     ctx.assumptions += ['positional fragments of dynamic instances (name-based fragments of metamodel elements are C10); uuid mode is C08',
                         'container chains are acyclic']
 
